@@ -2,6 +2,7 @@
 package core
 
 import (
+	"sync"
 	"encoding/json"
 	"fmt"
 	"os"
@@ -46,6 +47,7 @@ type Report struct {
 	Extra       map[string]any
 	Notes       []string
 	start       time.Time
+	mu          sync.Mutex
 }
 
 func NewReport(prop, tier, level string) *Report {
@@ -63,7 +65,9 @@ func (r *Report) Assume(s ...string) { r.Assumptions = append(r.Assumptions, s..
 
 func (r *Report) add(rule, key, construct, pos string, st Status, reason string) *Obligation {
 	o := &Obligation{Property: r.Property, Rule: rule, Key: rule + "|" + key, Construct: construct, Pos: pos, Status: st, Reason: reason}
+	r.mu.Lock()
 	r.Obls = append(r.Obls, o)
+	r.mu.Unlock()
 	return o
 }
 
